@@ -305,6 +305,15 @@ template <class X> static void xof_suite(const char *cls, int a, size_t declared
       else { ascon_xof_init_custom(&s.x, "name", ADB, 9, declared); ascon_xof_absorb(&s.x, MSG, 13); ascon_xof_squeeze(&s.x, exp, 40); ascon_xof_free(&s.x); }
       { X x("name", ADB, 9); x.absorb(MSG, 13); x.squeeze(got, 40); if (memcmp(got, exp, 40)) hx_fail(kb, "constructor(name, custom, len) differs from init_custom"); }
       { X x("name", mk_ba(ADB, 9)); x.absorb(MSG, 13); x.squeeze(got, 40); if (memcmp(got, exp, 40)) hx_fail(kb, "constructor(name, byte_array) differs from init_custom"); }
+      /* documented: the function name may be NULL or empty, with or without a customisation string */
+      for (int nm = 0; nm < 2; nm++) for (size_t cl = 0; cl <= 9; cl += 9) { const char *fn = nm ? "" : (const char *)0;
+        if (a) { ascon_xofa_init_custom(&s.xa, fn, ADB, cl, declared); ascon_xofa_absorb(&s.xa, MSG, 13); ascon_xofa_squeeze(&s.xa, exp, 40); ascon_xofa_free(&s.xa); }
+        else { ascon_xof_init_custom(&s.x, fn, ADB, cl, declared); ascon_xof_absorb(&s.x, MSG, 13); ascon_xof_squeeze(&s.x, exp, 40); ascon_xof_free(&s.x); }
+        { X x(fn, ADB, cl); x.absorb(MSG, 13); x.squeeze(got, 40); if (memcmp(got, exp, 40)) hx_fail(kb, "constructor(%s name, custom, %zu) differs from init_custom", nm ? "empty" : "NULL", cl); }
+        { X x(fn, mk_ba(ADB, cl)); x.absorb(MSG, 13); x.squeeze(got, 40); if (memcmp(got, exp, 40)) hx_fail(kb, "constructor(%s name, byte_array of %zu) differs from init_custom", nm ? "empty" : "NULL", cl); }
+        hx_stat("evaluations", 2); }
+      if (a) { ascon_xofa_init_custom(&s.xa, "name", ADB, 9, declared); ascon_xofa_absorb(&s.xa, MSG, 13); ascon_xofa_squeeze(&s.xa, exp, 40); ascon_xofa_free(&s.xa); }
+      else { ascon_xof_init_custom(&s.x, "name", ADB, 9, declared); ascon_xof_absorb(&s.x, MSG, 13); ascon_xof_squeeze(&s.x, exp, 40); ascon_xof_free(&s.x); }
       if (a) { ascon_xofa_init_custom(&s.xa, "name", 0, 0, declared); ascon_xofa_squeeze(&s.xa, exp, 40); ascon_xofa_free(&s.xa); }
       else { ascon_xof_init_custom(&s.x, "name", 0, 0, declared); ascon_xof_squeeze(&s.x, exp, 40); ascon_xof_free(&s.x); }
       { X x("name"); x.squeeze(got, 40); if (memcmp(got, exp, 40)) hx_fail(kb, "constructor(name) differs from init_custom"); } }
